@@ -6,6 +6,12 @@ from core import Corr, Violation, run_driver
 from extract import pyexpr
 
 ID = "C20"
+#: functions the hand-written model transcribes: their control skeleton (extract/shape.py) is regenerated into
+#: Gen/C20.lean and compared with the literal in Properties/C20.lean (`modelled_functions_have_the_transcribed_shape`)
+SHAPES = [
+    ("shapeBuildTsXy", "mlinsights/timeseries/utils.py", "build_ts_X_y"),
+    ("shapeTsMape", "mlinsights/timeseries/metrics.py", "ts_mape"),
+]
 SRC_UTILS = "mlinsights/timeseries/utils.py"
 SRC_METRICS = "mlinsights/timeseries/metrics.py"
 SRC_BASE = "mlinsights/timeseries/base.py"
@@ -379,11 +385,28 @@ def _table(a):
     return ";".join((",".join(_cell(v) for v in row) if a.shape[1] else "-") for row in a)
 
 
-def _call_build(past, d1, d2, X, y, w, same):
+def _call_build(past, d1, d2, X, y, w, same, model=None):
     from mlinsights.timeseries.base import BaseTimeSeries
     from mlinsights.timeseries.utils import build_ts_X_y
-    model = BaseTimeSeries(past=past, delay1=d1, delay2=d2)
+    if model is None:
+        model = BaseTimeSeries(past=past, delay1=d1, delay2=d2)
     return build_ts_X_y(model, X, y, w, same_rows=same)
+
+
+def _used_model(before, past, d2):
+    """A model object that has ALREADY framed a series under another configuration (`before` = n, past, delay2,
+    ncol, weights) and is then given the current one through set_params: the frame depends on the series and on the
+    CURRENT past / delays only, whatever the object framed earlier."""
+    from mlinsights.timeseries.base import BaseTimeSeries
+    model = BaseTimeSeries(past=before["past"], delay1=1, delay2=before["delay2"])
+    X, y, w = _series(before["n"], before.get("ncol"), before.get("weights", False), "plain")
+    for same in (False, True):
+        try:
+            _call_build(before["past"], 1, before["delay2"], X, y, w, same, model=model)
+        except Exception:  # noqa: BLE001
+            pass
+    model.set_params(past=past, delay2=d2)
+    return model
 
 
 def _impl_build(past, d1, d2, X, y, w, same):
@@ -562,16 +585,17 @@ def _check_row(r, xrow, yrow, wval, n, past, d1, d2, ncol):
     return bad
 
 
-def _frame_violations(n, past, d2, ncol, weights, layout="plain"):
+def _frame_violations(n, past, d2, ncol, weights, layout="plain", before=None):
     """Run both variants on the real code (delay1 = 1) and apply the statement."""
     import numpy
     d1 = 1
+    model = _used_model(before, past, d2) if before else None
     X, y, w = _series(n, ncol, weights, layout)
     bad = []
     nrow = n - d2 - past + 2
     enough = nrow >= 0
     try:
-        nx, ny, nw = _call_build(past, d1, d2, X, y, w, False)
+        nx, ny, nw = _call_build(past, d1, d2, X, y, w, False, model=model)
         plain = (nx, ny, nw)
     except Exception as e:
         plain = None
@@ -590,7 +614,7 @@ def _frame_violations(n, past, d2, ncol, weights, layout="plain"):
             wv = None if nw is None or r >= len(nw) else nw[r]
             bad += _check_row(r, nx[r], ny[r], wv, n, past, d1, d2, ncol)
     try:
-        sx, sy, sw = _call_build(past, d1, d2, X, y, w, True)
+        sx, sy, sw = _call_build(past, d1, d2, X, y, w, True, model=model)
         same = (sx, sy, sw)
     except Exception as e:
         same = None
@@ -679,6 +703,22 @@ def search(ctx, hints):
                             vs.append(Violation("build_ts_X_y:" + key, what, inp, obs, req))
                         if len(samples) < 2 and n == 6 and past == 2:
                             samples.append(dict(inp, violations=len(bad)))
+    # the same model object used under two configurations in sequence (set_params in between)
+    for t in range(ctx.pick(600, 6000)):
+        n = rng.randint(0, nmax)
+        before = {"n": n if rng.random() < 0.7 else rng.randint(0, nmax), "past": rng.randint(1, pmax),
+                  "delay2": rng.randint(2, dmax), "ncol": rng.choice([None, 1, 2]), "weights": rng.random() < 0.5}
+        past, d2 = rng.randint(1, pmax), rng.randint(2, dmax)
+        ncol = before["ncol"] if rng.random() < 0.7 else rng.choice([None, 1, 2])
+        weights = rng.random() < 0.5
+        bad = _frame_violations(n, past, d2, ncol, weights, "plain", before=before)
+        evals += 1
+        nontriv.add((n, past, d2, ncol, weights, "after", tuple(sorted(before.items(), key=str))))
+        inp = {"kind": "frame", "n": n, "past": past, "delay1": 1, "delay2": d2, "ncol": ncol, "weights": weights,
+               "layout": "plain", "before": before}
+        for key, what, obs, req in bad:
+            vs.append(Violation("build_ts_X_y:" + key, what + " (model object used before under another configuration)",
+                                inp, obs, req))
     # ts_mape
     cases = []
     for n in range(2, 7):
@@ -725,7 +765,7 @@ def replay(ctx, item):
         out = [Violation(k, w, inp, o, r) for k, w, o, r in bad]
     else:
         bad = _frame_violations(inp["n"], inp["past"], inp["delay2"], inp["ncol"], inp["weights"],
-                                inp.get("layout", "plain"))
+                                inp.get("layout", "plain"), before=inp.get("before"))
         out = [Violation("build_ts_X_y:" + k, w, inp, o, r) for k, w, o, r in bad]
     best = {}
     for v in out:
